@@ -189,7 +189,15 @@ def gen_fn(g, repo, sec, mode):
     msk = mask(text)
     par = msk.find('(', msk.find('fn '))
     par_end = match_brace(msk, par)
-    b = msk.find('{', par_end)
+    b, _d = -1, 0
+    for _k in range(par_end + 1, len(msk)):
+        if msk[_k] in '([':
+            _d += 1
+        elif msk[_k] in ')]':
+            _d -= 1
+        elif msk[_k] == '{' and _d == 0:
+            b = _k
+            break
     header, body = text[:b].rstrip(), text[b:]
     for pat, rep in o['sigsubs']:
         header, n = re.subn(pat, rep, header)
